@@ -19,7 +19,7 @@ RULE = ("random key/element histories (adds, removes, updates, several per cycle
 ASSUMPTIONS = ["element values and liveness are derived from the scripted source's write log (vp/collmodel.py)",
                "combiners sum/max/xor are associative and commutative, so the expected value is order-free",
                "g++-12 -O1 build of the working tree with harness-side shims"]
-FLOORS = {"cycles_checked": {"quick": 5000, "thorough": 80000}, "empty_states": {"quick": 200, "thorough": 3000},
+FLOORS = {"refmap_silent_repoints": {"quick": 60, "thorough": 1000}, "refmap_silent_repoints_of_a_single_element": {"quick": 10, "thorough": 150}, "cycles_checked": {"quick": 5000, "thorough": 80000}, "empty_states": {"quick": 200, "thorough": 3000},
           "singleton_states": {"quick": 300, "thorough": 5000}, "multi_states": {"quick": 1500, "thorough": 25000},
           "capacity_growth_cases": {"quick": 5, "thorough": 80}, "more_than_64_live_cases": {"quick": 8, "thorough": 150}, "keyed_vanishing_inner_keys": {"quick": 100, "thorough": 1500},
           "keyed_growth_with_vanishing_key": {"quick": 10, "thorough": 150}}
@@ -253,6 +253,89 @@ def check_live_zero(case, tr):
     return res
 
 
+def gen_refmap_case(rng, name):
+    """The reduced dictionary is the output of a map_ whose function returns a REFERENCE (a selection between the element and a
+    value derived from it, switched by a broadcast flag): an element re-points to a source that is valid but does not tick in
+    that cycle. Oracle: at every sampled cycle the result is the fold over what the elements currently read."""
+    from .prog import Case
+    end = rng.choice([24, 36])
+    c = Case(name, 0, end)
+    c.scripts[9] = [(t, t) for t in range(0, end)]
+    fn = rng.choice(["sum", "fn2:1", "add"])
+    v = rng.choice([0, 1])
+    cs = [(0, v)]
+    for t in sorted(rng.sample(range(1, end), rng.choice([3, 6, 9]))):
+        v = 1 - v
+        cs.append((t, v))
+    c.scripts[5] = cs
+    sc, live = [], set()
+    nk = rng.choice([1, 2, 3, 5])
+    for t in sorted(rng.sample(range(0, end), rng.choice([5, 8, 12]))):
+        r = rng.random()
+        if live and r < 0.2:
+            k = rng.choice(sorted(live))
+            live.discard(k)
+            sc.append(f"{t}|x[{k}]")
+        else:
+            k = rng.randrange(nk)
+            live.add(k)
+            sc.append(f"{t}|[{k}]={rng.randint(1, 40)}")
+    c.cscripts[1] = sc
+    c.graphs["fn0"] = [S("x", "add2", "p0", "p0", uid=100), S("r", "ite", "p1", "x", "p0", uid=101), S("", "RET", "r")]
+    c.graphs["fn1"] = [S("s", "sum2", "p0", "p1"), S("", "RET", "s")]
+    zero = rng.choice([None, None, 7])
+    red = S("r", "reduce", "m", fn=fn) if zero is None else S("r", "reduce", "m", fn=fn, zero=zero)
+    c.graphs["main"] = [S("clk", "src", uid=9, mode=1), S("b", "src", uid=5, mode=1), S("d", "csrc", shape="tsd", uid=1),
+                        S("m", "map", "d", "b", fn="fn2:0"), red, S("", "cprobe", "r", "clk", uid=20), S("", "rec", "r", uid=21)]
+    c.meta.update(refmap=1, shape="tsd", fn=fn, zero=zero, big=False)
+    return c
+
+
+def check_refmap(case, tr):
+    res = Result(signature=case.text().split("\n", 1)[1])
+    run = tr.runs[0]
+    if tr.build_error or run.error:
+        res.violations.append(Violation(f"build/run failed: {tr.build_error or run.error}"))
+        return res
+    probe = {t: d for t, d, _ in parse_dumps(run).get(20, [])}
+    wl = dict(write_log(run).get(1, []))
+    node = Node(SHAPES["tsd"])
+    flag = dict(case.scripts[5])
+    zero = case.meta["zero"]
+    b = None
+    C = {"refmap_cycles_checked": 0, "refmap_silent_repoints": 0, "refmap_silent_repoints_of_a_single_element": 0}
+    for t in range(case.start, case.end):
+        for op in wl.get(t, []):
+            node.apply(op, t)
+        flipped = t in flag and b is not None and flag[t] != b
+        if t in flag:
+            b = flag[t]
+        vals = [c.val for c in node.children.values() if c.val is not None]
+        if flipped and vals and t not in wl:
+            C["refmap_silent_repoints"] += 1
+            if len(vals) == 1:
+                C["refmap_silent_repoints_of_a_single_element"] += 1
+        reads = [(8 * v + 1) if b else v for v in vals]
+        if not reads:
+            exp = zero
+        elif len(reads) == 1:
+            exp = reads[0] + zero if zero is not None else reads[0]
+        else:
+            exp = sum(reads)
+        d = probe.get(t)
+        if d is None or t == case.start:
+            continue
+        C["refmap_cycles_checked"] += 1
+        got = int(d["val"]) if d["v"] else None
+        if got != exp and len(res.violations) < 5:
+            res.violations.append(Violation(f"t={t}: reduce over map_ elements that are references (flag {b}{', flipped in this cycle' if flipped else ''}; "
+                                            f"elements currently read {sorted(reads)}) reads {'invalid' if got is None else got}, expected "
+                                            f"{'invalid' if exp is None else exp}"))
+    res.counters = C
+    res.nontrivial = C["refmap_silent_repoints"] >= 1
+    return res
+
+
 def contiguous_history(rng, start, end, max_n=7, tail_shrink=False):
     """Key histories over the contiguous key range 0..n-1 (what an ordered reduction accepts): grow at the top, shrink from the top,
     update in place; sizes revisit earlier maxima and shrink right after a new maximum."""
@@ -356,7 +439,8 @@ def generate(rng, tier, seed):
     n = scaled(250 if tier == "quick" else 4000)
     return [gen_case11(rng, f"c11_{seed}_{k}", k) for k in range(n)] + [gen_keyed_case(rng, f"c11_{seed}_kd{k}") for k in range(n // 4)] + \
         [gen_ordered_case(rng, f"c11_{seed}_or{k}") for k in range(n // 4)] + \
-        [gen_live_zero_case(rng, f"c11_{seed}_lz{k}") for k in range(n // 5)]
+        [gen_live_zero_case(rng, f"c11_{seed}_lz{k}") for k in range(n // 5)] + \
+        [gen_refmap_case(rng, f"c11_{seed}_rm{k}") for k in range(n // 5)]
 
 
 def expected(values, fn, zero):
@@ -377,6 +461,8 @@ def check(case, tr):
         return check_keyed(case, tr)
     if case.meta.get("ordered"):
         return check_ordered(case, tr)
+    if case.meta.get("refmap"):
+        return check_refmap(case, tr)
     if case.meta.get("live_zero"):
         return check_live_zero(case, tr)
     run = tr.runs[0]
